@@ -107,6 +107,8 @@ pub fn run_scenario(sc: &Value, out: &mut Vec<u8>, cap: &mut Capture, cold_cache
     let running = core.run_state == RunState::Run;
     let kind = if !running { "halt" } else if mode == "block" || cfg!(feature = "jit") { "block" } else { "instr" };
     if cold_cache { core.cache = CodeCache::new(); }
+    let pc0 = core.registers.ip;
+    let rb0 = core.memory.get_rom_bank();
     let c0 = clocks();
     unsafe { crate::mem::verif::CPU[0] = u64::MAX; }
     rec_start();
@@ -124,7 +126,7 @@ pub fn run_scenario(sc: &Value, out: &mut Vec<u8>, cap: &mut Capture, cold_cache
     let wr: Vec<Value> = writes_only(&log).iter().map(|w| json!([w.0, w.1])).collect();
     let cpu = unsafe { if crate::mem::verif::CPU[0] == u64::MAX { 0 } else { crate::mem::verif::CPU[0] } };
     writeln!(out, "{}", json!({"ev": "step", "k": kind, "o": project(&mut core), "wr": wr, "out": serial,
-      "clk": [c1[0] - c0[0], c1[1] - c0[1], c1[2] - c0[2]], "cpu": cpu})).unwrap();
+      "clk": [c1[0] - c0[0], c1[1] - c0[1], c1[2] - c0[2]], "cpu": cpu, "pc0": pc0, "rb0": rb0, "cold": cold_cache})).unwrap();
   }
   // stepping to the next frame (C09): elapsed device clocks, largest single step, LCD position
   let frames = sc["frames"].as_u64().unwrap_or(0);
@@ -164,4 +166,59 @@ pub fn run(args: &[String]) {
   }
   let panics = res.lines.iter().filter(|l| l.contains("\"ev\":\"panic\"")).count();
   eprintln!("{}", json!({"kind": "summary", "scenarios": scen.len(), "panics": panics, "crashes": res.crashes.len(), "truncated": res.truncated}));
+}
+
+/// C03 / C18 under cache pressure: a program made of tens of thousands of distinct blocks across
+/// many ROM banks (chains of JP instructions), run block by block in an isolated worker.
+/// Reports how far it got, the arena use, what appeared on stdout and whether the worker died.
+pub fn cache_pressure(args: &[String]) {
+  let banks = arg_usize(args, "--banks", 64);
+  let steps = arg_usize(args, "--steps", 400000);
+  let capfile = arg_value(args, "--capture").expect("--capture");
+  silence_panics();
+  let res = run_isolated_max(1, 1, |_, out| {
+    let mut cap = Capture::start(&capfile);
+    // MBC3 with 128 banks; bank b (1..banks) holds a chain of JPs from 0x4000 upwards, the last one
+    // jumps to a trampoline in bank 0 that maps bank b + 1 and jumps to 0x4000
+    let mut core = new_core(0x11, 128, 0);
+    let per_bank = 5450usize;
+    for b in 1..=banks {
+      let base = b * 0x4000;
+      for i in 0..per_bank {
+        let a = 0x4000 + 3 * i;
+        let next = if i + 1 < per_bank { a + 3 } else { 0x0200 + 16 * b };
+        core.memory.rom[base + 3 * i] = 0xc3; core.memory.rom[base + 3 * i + 1] = next as u8; core.memory.rom[base + 3 * i + 2] = (next >> 8) as u8;
+      }
+      let t = 0x0200 + 16 * b;
+      let nb = if b < banks { b + 1 } else { 1 };
+      let code = [0x3e, nb as u8, 0xea, 0x00, 0x20, 0xc3, 0x00, 0x40];
+      for (i, x) in code.iter().enumerate() { core.memory.rom[t + i] = *x; }
+    }
+    core.memory.rom[0x100] = 0xc3; core.memory.rom[0x101] = 0x00; core.memory.rom[0x102] = 0x40;
+    core.registers.ip = 0x100; core.registers.sp = 0xfffe;
+    let mut done = 0usize;
+    let mut lastline = String::new();
+    for k in 0..steps {
+      if k % 2000 == 0 {
+        let (cursor, capacity, _, _) = core.cache.verif_snapshot();
+        lastline = json!({"kind": "progress", "steps": k, "cursor": cursor, "capacity": capacity, "pc": core.registers.ip as u32}).to_string();
+        out.extend_from_slice(lastline.as_bytes()); out.push(b'\n');
+        out.extend_from_slice(format!("#D {}\n", 0).as_bytes());
+      }
+      core.update();
+      done = k + 1;
+    }
+    let printed = cap.take();
+    let (cursor, capacity, _, _) = core.cache.verif_snapshot();
+    let line = json!({"kind": "finished", "steps": done, "cursor": cursor, "capacity": capacity, "stdout_bytes": printed.len(),
+                      "stdout_head": String::from_utf8_lossy(&printed[..printed.len().min(120)])});
+    out.extend_from_slice(line.to_string().as_bytes()); out.push(b'\n');
+  });
+  for l in &res.lines { println!("{}", l); }
+  let printed = std::fs::read(&capfile).unwrap_or_default();
+  for (_, st) in &res.crashes {
+    println!("{}", json!({"kind": "crash", "status": describe_status(*st), "stdout_bytes": printed.len(),
+                          "stdout_head": String::from_utf8_lossy(&printed[..printed.len().min(120)])}));
+  }
+  println!("{}", json!({"kind": "summary", "crashes": res.crashes.len()}));
 }
